@@ -286,6 +286,24 @@ fn crafted(rng: &mut Rng) -> Vec<(String, Vec<u8>)> {
             v.push((format!("still_alph_vp8_dims_{vw}x{vh}_vs_6x5"), extended_still(&Payload::LossyAlpha(alph, b), 6, 5, true)));
         }
     }
+    // stills whose VP8X canvas disagrees with the VP8 frame by a multiple of 65536 (the sizes that
+    // survive a cast to u16 as 0 or as the frame's own size), next to their neighbours, with a
+    // lossless-compressed ALPH that uses a transform (crate encoder with predictor) or any
+    // grammar-generated stream: whichever of ALPH / VP8 is decoded first must not see a 0 x N image
+    if let Payload::Lossy(b) = make_lossy(&drop_alpha(&rgba), 6, 5, 50.0) {
+        let mut alphs: Vec<(String, Vec<u8>)> = vec![("enc".into(), crate::c05::make_alph(&alpha, 6, 5, 0, true, 0, 0)), ("encf".into(), crate::c05::make_alph(&alpha, 6, 5, 3, true, 0, 0))];
+        for k in 0..3 {
+            let (st, _) = crate::vp8lgen::stream(rng, 6, 5);
+            let mut body = vec![1u8];
+            body.extend_from_slice(&st[5..]);
+            alphs.push((format!("gen{k}"), body));
+        }
+        for (an, alph) in &alphs {
+            for (cw, ch) in [(65536u32, 5u32), (6, 65536), (65536, 65536), (131072, 5), (6, 196608), (65536 + 6, 5), (6, 65536 + 5), (65535, 5), (65537, 5), (6, 65535), (1 << 24, 5), (6, 1 << 24), (1 << 24, 1 << 24), (16384, 5), (6, 16385)] {
+                v.push((format!("crafted:still_alph_{an}_canvas_{cw}x{ch}_vs_6x5"), extended_still(&Payload::LossyAlpha(alph.clone(), b.clone()), cw, ch, true)));
+            }
+        }
+    }
     // ALPH followed by something that is not VP8
     let alph = crate::c05::make_alph(&alpha, 6, 5, 0, false, 0, 0);
     let ll = make_lossless(&rgba, 6, 5, false);
